@@ -37,6 +37,23 @@ def check(run):
             k = outs.index("<crash>") if "<crash>" in outs else 0
             run.violation(f"C14: library crashed with strings given as {KINDS[kind]}: {crash[:200]}",
                           dict(kind="history", cfg=cfg, harness_src="hist_h", lines=[f"HRUN 2 {kind} - {hists[k]}"], observed=crash[-3000:]))
+    # scripted: a sized key that is a view INTO the buffer of a longer linked key of the same object (same address, shorter
+    # length) is just its own bytes: lookups, insertions and removals must not confuse it with the longer key
+    for e_, k_ in ((b"temperature_max", b"temperature"), (b"ab", b"a"), (b"abc", b"ab"), (b"k1", b"k"), (b"xy", b"x")):
+        E, K = hx(e_), hx(k_)
+        script = (f"toobj 0 @0 ;; setmember 0 {E} i1 @0 ;; setmember 0 {E} i1 @0 ;; getmember 0 {K} 5 @0,5 ;; getmember 0 {K} 6 @0,6 ;; "
+                  f"setmember 0 {K} i2 @0 ;; setmember 0 {K} i3 @0 ;; rmkey 0 {K} @0 ;; rmkey 0 {K} @0 ;; getmember 0 {E} 7 @0,7 ;; "
+                  f"makemember 0 {K} 8 @0,8 ;; rmkey 0 {E} @0 ;; getmember 0 {K} 9 @0,9 ;; ")
+        mo, _ = vlib.run_lines(model, ["CFG " + cfg, "HEXP 2 " + script])
+        exp = [x for x in mo[1].split(" ;; ") if x.strip()]
+        for kind in (7, 3, 6, 1):
+            io, crash = vlib.run_lines(impl, ["CFG " + cfg, f"HRUN 2 {kind} - " + script])
+            run.count(("alias-script", e_, kind))
+            got, _ = histcheck.parse_run(io[1]) if len(io) > 1 else ([], "")
+            k = histcheck.first_divergence(exp, got)
+            if crash or k is not None:
+                oracle_fail.append((cfg, f"HRUN 2 {kind} - " + script, f"[key {k_!r} given as a view into the linked key {e_!r}; strings given as {KINDS[kind]}] step {k}: {exp[k][:200] if k is not None and k < len(exp) else ''}",
+                                    (crash or (got[k][0] if got and k is not None and k < len(got) else "missing"))[-300:]))
     # numeric conversion and comparisons: linked vs copied (same answers)
     implN = vlib.need_harness("num_h", cfg)
     strs = [b"42", b"3.14", b"1e5", b"-7", b"abc", b"", b"1" * 400, b"0.5", b"18446744073709551615", b"true", b"1.5e300"]
